@@ -3,6 +3,7 @@ Model of `Adsorbate.find` / `Adsorbate.__eq__` (core/adsorbate.py) over the gene
 fallback logic shared by every thermodynamic accessor (`molar_mass`, `saturation_pressure`, `liquid_density`, …).
 -/
 import PgVerif.Gen.Registry
+import PgVerif.Model.Fallback
 
 namespace PgVerif.Model.Registry
 
@@ -16,28 +17,6 @@ def find {β : Type} (reg : List (β × List Nat)) (k : Nat) : Option β :=
 /-- every alias of the registry, in list order -/
 def allKeys {β : Type} (reg : List (β × List Nat)) : List Nat := reg.flatMap (·.2)
 
-inductive Err | param | calc
-  deriving DecidableEq, Repr
-
-/-- the accessor pattern:
-```
-if calculate:
-    try: return backend_value
-    except BaseException: return self.X(calculate=False)
-try: return get_prop(X)
-except ParameterError: raise CalculationError
-```
-`backend = none` models "the backend raised"; `user = none` "the property is not in the dictionary". -/
-def propValue {α : Type} (calculate : Bool) (backend user : Option α) : Except Err α :=
-  if calculate then
-    match backend with
-    | some v => .ok v
-    | none => match user with
-      | some u => .ok u
-      | none => .error .calc
-  else
-    match user with
-    | some u => .ok u
-    | none => .error .calc
+-- `Err` and `propValue` (the fallback pattern of the accessors) live in `Model/Fallback.lean`, same namespace
 
 end PgVerif.Model.Registry
